@@ -127,7 +127,7 @@ Theorem files_use_their_own_species : forall fixed sc fs rest i t cst k,
     match write_fields fixed (f_species (nth k cst no_file)) fs i 0 (nth fs sc []) (nth fs t [])
                        (f_cells (nth k cst no_file)) with
     | inr e => inr e
-    | inl c' => write_traj_c fixed sc rest i t (update_nth k (set_cells (nth k cst no_file) c') cst)
+    | inl c' => write_traj_c fixed sc rest i t (update_nth k (wrote (nth k cst no_file) c' i) cst)
     end
   /\ read_raw_c fixed sc (fs :: rest) i cst =
     match read_raw_c fixed sc rest i cst with
